@@ -226,6 +226,15 @@ class Sim:
             P[n] = (-1, P[n][1]) if i == 0 else (P[n][0], -1)
         for n in ("log", "lcmd", "rcmd"):
             fcntl.fcntl(P[n][0], fcntl.F_SETFL, os.O_NONBLOCK)
+        for n in ("lrep", "rrep"):
+            # reports are written while the daemon is held at its select: everything a scenario writes between two
+            # quiescent points must fit the pipe, or the controller would block for ever (bursts of long failure
+            # texts, oversized garbage frames).  1 MB, and _wreport() refuses to block.
+            try:
+                fcntl.fcntl(P[n][1], 1031, 1 << 20)          # F_SETPIPE_SZ
+            except OSError:
+                pass
+            fcntl.fcntl(P[n][1], fcntl.F_SETFL, os.O_NONBLOCK)
         os.write(P["lrep"][1], bytes([self.spawn_limit[0]]))
         os.write(P["rrep"][1], bytes([self.spawn_limit[1]]))
         self.daemon, self.cleaner = spid, cpid
@@ -505,6 +514,7 @@ class Sim:
                 if r is not None and r.get("ph") == want:
                     return r
             self._daemon_gone()
+            self._drain()           # keep the daemon's command and log pipes empty: it must never block on them
             if self.scheduler is not None and not self.inbox:
                 if self.sched_step():
                     continue
@@ -563,11 +573,22 @@ class Sim:
             self.outstanding.pop((cmd.chan, cmd.delnum), None)
         chan = cmd.chan if cmd is not None else "l"
         self.emit("report", cmd=cmd, chan=chan, delnum=cmd.delnum if cmd else None, text=text, raw=raw)
-        os.write(self.P["lrep" if chan == "l" else "rrep"][1], data)
+        self._wreport(chan, data)
 
     def raw_report_bytes(self, chan, data):
         self.emit("rawreport", chan=chan, data=data)
-        os.write(self.P["lrep" if chan == "l" else "rrep"][1], data)
+        self._wreport(chan, data)
+
+    def _wreport(self, chan, data):
+        fd = self.P["lrep" if chan == "l" else "rrep"][1]
+        mv = memoryview(data)
+        while len(mv):
+            try:
+                n = os.write(fd, mv)
+            except BlockingIOError:
+                raise core.Inconclusive("report pipe of channel %s is full (%d bytes pending): the scenario writes more between two "
+                                        "quiescent points than a pipe holds" % (chan, len(mv)))
+            mv = mv[n:]
 
     def inject(self, msg, envelope, role="inj", uid=None, plan=None):
         """(scenario) run one qmail-queue to completion (daemon is blocked at its select meanwhile)"""
